@@ -255,6 +255,66 @@ func TestC04_IssuanceWithinCA(t *testing.T) {
 				labels = append(labels, "issued:p256-lowS-checked")
 			}
 		}
+		// The same TBSCertificate value signed again by another CA (rotation: identical host details
+		// issued under the old and the new CA): the second issuance is judged against ITS signer only.
+		if rapid.IntRange(0, 3).Draw(rt, "reissue") == 0 {
+			var ca2 *cgCA
+			if rapid.IntRange(0, 3).Draw(rt, "successor") != 0 {
+				// the successor of the first CA: same constraints, another key
+				s2 := ca.spec
+				s2.Name = "ca2"
+				k2 := cgSigningKey(s2.Curve, rapid.IntRange(0, cgNumSignKeys-1).Draw(rt, "ca2-key"))
+				s2.Pub = k2.pub
+				cc, cerr := s2.tbs().Sign(nil, s2.Curve, k2.priv)
+				if cerr != nil {
+					rt.Fatalf("harness: self-signing the successor CA failed: %v", cerr)
+				}
+				fp2, cerr := cc.Fingerprint()
+				if cerr != nil {
+					rt.Fatalf("harness: %v", cerr)
+				}
+				ca2 = &cgCA{spec: s2, key: k2, cert: cc, fp: fp2}
+			} else {
+				ca2 = cgDrawCA(rt, "ca2")
+			}
+			var why2 []string
+			if st := cgRefStructural(&s); st != "" {
+				why2 = append(why2, "structural")
+			}
+			if s.IsCA {
+				why2 = append(why2, "ca-flag")
+			}
+			if s.Curve != ca2.spec.Curve {
+				why2 = append(why2, "curve")
+			}
+			why2 = append(why2, cgRefConstraints(&ca2.spec, &s)...)
+			c2, err2 := tbs.Sign(ca2.cert, ca2.key.curve, ca2.key.priv)
+			desc2 := " [second issuance of the same TBS value]" + c04Describe(ca2, &s, "Sign")
+			if err2 == nil && len(why2) > 0 {
+				rt.Fatalf("signing succeeded although the request violates %v%s", why2, desc2)
+			}
+			if err2 == nil {
+				if c2.Issuer() != ca2.fp {
+					rt.Fatalf("issued certificate names issuer %q, signer is %q (first signer was %q)%s", c2.Issuer(), ca2.fp, ca.fp, desc2)
+				}
+				if !cgVerifyRaw(ca2.spec.Curve, ca2.spec.Pub, cgSignedBytes(c2), c2.Signature()) {
+					rt.Fatalf("issued certificate's signature does not verify under the signer's key%s", desc2)
+				}
+				if s.NB <= s.NA {
+					pool2 := cgPool(rt, []*cgCA{ca2}, []bool{true})
+					if _, verr := pool2.VerifyCertificate(time.Unix(s.NB+(s.NA-s.NB)/2, 0), c2); verr != nil {
+						rt.Fatalf("issued certificate does not verify against its signer: %v%s", verr, desc2)
+					}
+				}
+				if ca2.fp != ca.fp && err == nil {
+					labels = append(labels, "reissued-under-another-ca")
+				} else {
+					labels = append(labels, "reissued")
+				}
+			} else {
+				labels = append(labels, "reissue-refused")
+			}
+		}
 		vk.Case("C04", fmt.Sprintf("%v|%s|%s|%s", selfSign, &ca.spec, &s, mode), nt, labels...)
 		if vk.WantSample("C04") {
 			vk.Sample("C04", map[string]any{"case": desc, "violations": why, "issued": err == nil})
